@@ -34,6 +34,7 @@ inductive QOp where
   | push (i : Nat)         -- vec.push_back(std::move(p[i])) (reallocation included)
   | pop                    -- vec.pop_back()
   | swap (i j : Nat)       -- std::swap(p[i], p[j])
+  | makeFails (i ty : Nat) -- p[i] = make_quaint<T>() where T's constructor throws: no object comes into being
   deriving DecidableEq, Repr
 
 def QS.step (pool : Nat) (s : QS) : QOp → QS
@@ -66,6 +67,7 @@ def QS.step (pool : Nat) (s : QS) : QOp → QS
     if i < s.cells.length ∧ j < s.cells.length then
       { s with cells := (s.cells.set i (s.cells[j]?.getD none)).set j (s.cells[i]?.getD none) }
     else s
+  | .makeFails _ _ => s     -- the exception leaves make_quaint before an owner exists; the target keeps what it has
 
 def QS.run (pool : Nat) (s : QS) : List QOp → QS
   | [] => s
